@@ -1,3 +1,4 @@
+import NimaVerif.Lemmas.NameAgree
 import NimaVerif.Lemmas.AssignHistory
 import NimaVerif.Lemmas.NodeEq
 import NimaVerif.Model.ResolveSpec
@@ -33,6 +34,8 @@ binding list), `inheritFree` (no `inherit` clause mentions a name involved — t
 depth, shadowing or chain length.
 -/
 namespace Nima.C11
+-- name tokens are compared by spelling in this file (see `NameCmp` in Model/Edit.lean)
+attribute [local instance] NameCmp.spelled
 
 open Node
 
@@ -696,5 +699,81 @@ example : Defines (docEnv wrapDoc) "v".toList 4 ∧
   c11_partial_through_chain wrapDoc "version".toList "version".toList newV 2 "version".toList false
     "v".toList [] [] 4 rfl (by decide) (by decide) (by decide) (by decide) (by decide) (by decide)
     (by decide) (by decide) (resolveIdent_sound 3 _ _ _ (by decide) (by decide) (by decide))
+
+/-! ## For the repaired code (`NameCmp.model`, i.e. lookups through `_same_attr_name`)
+
+Everything above is stated for the name comparison by spelling (`NameCmp.spelled`, declared at the head
+of this file). `setValue_model_eq_spelled` / `removeValue_model_eq_spelled` (Lemmas/NameAgree.lean) make
+it a statement about the model of the repaired code under the decidable side condition
+`NameAgree.noSpellingClash d p`: among the name tokens of the document and the keys of the path no two are
+different spellings of one Nix name. The single-operation theorems restated that way (hypotheses about
+lookups keep the comparison by spelling, which is the code's on such inputs): -/
+
+theorem repaired_set_is_spelled (p : Text) (v : ValueArg) (d : Doc) (hns : NameAgree.noSpellingClash d p) :
+    @setValue NameCmp.model p v d = setValue p v d := NameAgree.setValue_model_eq_spelled p v d hns
+
+theorem repaired_rm_is_spelled (p : Text) (d : Doc) (hns : NameAgree.noSpellingClash d p) :
+    @removeValue NameCmp.model p d = removeValue p d := NameAgree.removeValue_model_eq_spelled p d hns
+
+theorem set_through_reference_repaired (d : Doc) (p k : Text) (v : Node) (rid : Nat) (nm : Text) (ne : Bool)
+    (name : Text) (bf af : Payload) (bid : Nat)
+    (hnt : d.noTarget = none) (hsp : splitScopeNpath p = .ok none)
+    (hf : formatNPath currentAnchor p = .ok [k])
+    (hr : findAttrpathRoot d.target.setValues k = none)
+    (hb : findBinding d.target.setValues k = some (.bind rid nm ne (.ident name) bf af))
+    (hok : envOK (chainEnv d d.target true) = true) (hname : nixName name = name)
+    (hinh : inheritFree (chainEnv d d.target true) name = true)
+    (hids : idsNodup (chainEnv d d.target true) = true)
+    (hdef : Defines (chainEnv d d.target true) name bid)
+    (hns : NameAgree.noSpellingClash d p) :
+    @setValue NameCmp.model p (.one v) d = (.ok (), d.updBind bid v) ∧
+    (rid ≠ bid → findBinding (d.updBind bid v).target.setValues k =
+      some (.bind rid nm ne (.ident name) bf af)) := by
+  simp only [NameAgree.setValue_model_eq_spelled p _ d hns, NameAgree.removeValue_model_eq_spelled p d hns] at *
+  exact set_through_reference d p k v rid nm ne name bf af bid hnt hsp hf hr hb hok hname hinh hids hdef
+
+theorem set_unbound_overwrites_repaired (d : Doc) (p k : Text) (v : Node) (rid : Nat) (nm : Text) (ne : Bool)
+    (name : Text) (bf af : Payload)
+    (hnt : d.noTarget = none) (hsp : splitScopeNpath p = .ok none)
+    (hf : formatNPath currentAnchor p = .ok [k])
+    (hr : findAttrpathRoot d.target.setValues k = none)
+    (hb : findBinding d.target.setValues k = some (.bind rid nm ne (.ident name) bf af))
+    (hok : envOK (docEnv d) = true) (hname : nixName name = name)
+    (hnb : NotBound (docEnv d) name)
+    (hsib : findBinding d.target.setValues name = none)
+    (hns : NameAgree.noSpellingClash d p) :
+    @setValue NameCmp.model p (.one v) d = (.ok (), d.updBind rid v) := by
+  simp only [NameAgree.setValue_model_eq_spelled p _ d hns, NameAgree.removeValue_model_eq_spelled p d hns] at *
+  exact set_unbound_overwrites d p k v rid nm ne name bf af hnt hsp hf hr hb hok hname hnb hsib
+
+theorem c11_partial_repaired (d : Doc) (p k : Text) (v : Node) (rid : Nat) (nm : Text) (ne : Bool)
+    (name : Text) (bf af : Payload)
+    (hnt : d.noTarget = none) (hsp : splitScopeNpath p = .ok none)
+    (hf : formatNPath currentAnchor p = .ok [k])
+    (hr : findAttrpathRoot d.target.setValues k = none)
+    (hb : findBinding d.target.setValues k = some (.bind rid nm ne (.ident name) bf af))
+    (hok : envOK (docEnv d) = true) (hname : nixName name = name)
+    (hinh : inheritFree (docEnv d) name = true) (hids : idsNodup (docEnv d) = true)
+    (hns : NameAgree.noSpellingClash d p) :
+    (d.topScope = none → ∀ bid, Defines (docEnv d) name bid →
+      @setValue NameCmp.model p (.one v) d = (.ok (), d.updBind bid v)) ∧
+    (findBinding d.target.setValues name = none → NotBound (docEnv d) name →
+      @setValue NameCmp.model p (.one v) d = (.ok (), d.updBind rid v)) := by
+  simp only [NameAgree.setValue_model_eq_spelled p _ d hns, NameAgree.removeValue_model_eq_spelled p d hns] at *
+  exact c11_partial d p k v rid nm ne name bf af hnt hsp hf hr hb hok hname hinh hids
+
+theorem c11_partial_through_chain_repaired (d : Doc) (p k : Text) (v : Node) (rid : Nat) (nm : Text) (ne : Bool)
+    (name : Text) (bf af : Payload) (bid : Nat)
+    (hnt : d.noTarget = none) (hsp : splitScopeNpath p = .ok none)
+    (hf : formatNPath currentAnchor p = .ok [k])
+    (hr : findAttrpathRoot d.target.setValues k = none)
+    (hb : findBinding d.target.setValues k = some (.bind rid nm ne (.ident name) bf af))
+    (hok : envOK (docEnv d) = true) (hname : nixName name = name)
+    (hinh : inheritFree (docEnv d) name = true) (hids : idsNodup (docEnv d) = true)
+    (hdef : Defines (chainEnv d d.target true) name bid)
+    (hns : NameAgree.noSpellingClash d p) :
+    Defines (docEnv d) name bid ∧ @setValue NameCmp.model p (.one v) d = (.ok (), d.updBind bid v) := by
+  simp only [NameAgree.setValue_model_eq_spelled p _ d hns, NameAgree.removeValue_model_eq_spelled p d hns] at *
+  exact c11_partial_through_chain d p k v rid nm ne name bf af bid hnt hsp hf hr hb hok hname hinh hids hdef
 
 end Nima.C11
